@@ -19,6 +19,7 @@ import (
 	"github.com/jdillenkofer/pithos/internal/storage/database"
 	partOutboxEntry "github.com/jdillenkofer/pithos/internal/storage/database/repository/partoutboxentry"
 	"github.com/jdillenkofer/pithos/internal/storage/metadatapart/partstore"
+	"github.com/jdillenkofer/pithos/internal/verifhook"
 	"github.com/oklog/ulid/v2"
 	"github.com/prometheus/client_golang/prometheus"
 )
@@ -191,6 +192,18 @@ func (obs *outboxPartStore) startPartOutboxHeartbeat(ctx context.Context, entry 
 		ticker := time.NewTicker(interval)
 		defer ticker.Stop()
 		for {
+			if verifhook.Enabled {
+				// Simulation only: when several cases are ready Go's select picks one
+				// at random, which would make simulated runs unrepeatable. Give
+				// termination a fixed priority over the next heartbeat.
+				select {
+				case <-ctx.Done():
+					return
+				case <-stop:
+					return
+				default:
+				}
+			}
 			select {
 			case <-ctx.Done():
 				return
@@ -350,6 +363,23 @@ func (obs *outboxPartStore) replayDeletePart(ctx context.Context, entry *partOut
 func (obs *outboxPartStore) processOutboxLoop(ctx context.Context) {
 out:
 	for {
+		if verifhook.Enabled {
+			// Simulation only: fixed priority among simultaneously ready cases
+			// (termination, then an explicit trigger, then the poll timer).
+			select {
+			case <-ctx.Done():
+				break out
+			case <-obs.shutdownChannel:
+				break out
+			default:
+			}
+			select {
+			case <-obs.triggerChannel:
+				obs.maybeProcessOutboxEntries(ctx)
+				continue out
+			default:
+			}
+		}
 		select {
 		case <-ctx.Done():
 			break out
